@@ -558,7 +558,7 @@ class Replay(Policy):
 class SimThread:
     __slots__ = (
         'idx', 'program', 'baton', 'thread', 'finished', 'blocked_on', 'step', 'op_index', 'op_step',
-        'results', 'after_return', 'ret_code', 'frame', 'op_kind', 'in_op', 'op_steps', 'gap_code', 'error', 'quiet'
+        'results', 'after_return', 'ret_code', 'frame', 'op_kind', 'in_op', 'op_steps', 'gap_code', 'error', 'quiet', 'unwinding'
     )
 
     def __init__(self, idx, program):
@@ -582,6 +582,7 @@ class SimThread:
         self.gap_code = None
         self.error = None
         self.quiet = 0
+        self.unwinding = False
 
 
 class Sim:
@@ -720,6 +721,15 @@ class Sim:
         if self.faults:
             fk = (t.idx, t.op_index, t.op_step)
             exc = self.faults.get(fk)
+            if exc is not None and t.in_op and (kind not in ('call', 'return') or t.unwinding):
+                # Exceptions are injected only where one can really arise: as a callee fails on entry ('call') or as a
+                # call completes ('return': the call raises in its caller, inside whatever try/with protects it).
+                # A 'line' event is *between* statements - e.g. after a with-body and before __exit__ runs - where
+                # neither a failing operation nor (on CPython 3.12) an asynchronous exception can strike; injecting
+                # there made correct lock handling look broken.  The fault moves on to the next eligible step.
+                del self.faults[fk]
+                self.faults.setdefault((t.idx, t.op_index, t.op_step + 1), exc)
+                exc = None
             if exc is not None and t.in_op:
                 del self.faults[fk]
                 loc = self._loc(t)
@@ -742,6 +752,7 @@ class Sim:
 
         def local(frame, event, arg):
             if event == 'line':
+                t.unwinding = False
                 if not opcodes:
                     t.frame = frame
                     step(t, 'line')
@@ -749,8 +760,13 @@ class Sim:
                 t.frame = frame
                 step(t, 'line')
             elif event == 'return':
+                t.frame = frame
+                step(t, 'return')
                 t.after_return = True
                 t.ret_code = frame.f_code
+                t.unwinding = False
+            elif event == 'exception':
+                t.unwinding = True
             return local
 
         def glob(frame, event, arg):
